@@ -103,7 +103,7 @@ Proof.
 Qed.
 
 (* the table the direct pipeline hands to the compressor meets the hypotheses of C01 / C02 / C03_compress_graph_ok *)
-From DBG Require Import Spec.CompressSpec Algo.Compress Proofs.CompressGraphOk Proofs.E2eSym Proofs.E2eTable.
+From DBG Require Import Spec.CompressSpec Algo.Compress Proofs.CompressGraphOk Proofs.E2eDefs Proofs.E2eSym Proofs.E2eTable.
 Local Open Scope nat_scope.
 Theorem direct_table_hyps K st thr (lreads : list lread) order T :
   4 <= K -> Forall (fun r => wf_dna (fst r)) lreads -> NoDup order ->
@@ -114,8 +114,8 @@ Proof.
   assert (HK1 : 1 <= K) by lia.
   pose proof (spec_tbl_ok K st thr lreads T Hwf HT) as Hok.
   pose proof (spec_links_ok K st thr lreads T HK1 Hwf HT) as HL.
-  split; [exact Hok|]. split; [exact (links_exts_sym pay K st HK1 T _ Hok HL)|].
-  split; [exact (links_exts_sym_pal pay K st HK1 T _ Hok HL) | exact (links_exts_closed pay K st T _ Hok HL)].
+  split; [exact Hok|]. split; [exact (links_exts_sym pay K st HK1 T _ Hok (links_ok_loose _ _ _ _ HL))|].
+  split; [exact (links_exts_sym_pal pay K st HK1 T _ Hok (links_ok_loose _ _ _ _ HL)) | eapply (links_exts_closed pay K st T); [exact Hok | exact (links_ok_loose _ _ _ _ HL) | exact (lo_closed _ _ _ _ HL)]].
 Qed.
 Print Assumptions direct_table_hyps.
 Theorem edges_are_observed_direct_all K st thr mode (lreads : list lread) order g :
